@@ -3150,18 +3150,21 @@ func (er *EVPNIPPrefixRoute) Serialize() ([]byte, error) {
 		return nil, NewMessageError(BGP_ERROR_UPDATE_MESSAGE_ERROR, BGP_ERROR_SUB_MALFORMED_ATTRIBUTE_LIST, nil, "IP Prefix is nil")
 	} else if er.IPPrefix.Is4() {
 		buf = append(buf, er.IPPrefix.AsSlice()...)
-		if !er.GWIPAddress.IsValid() {
+		// Do not update er.GWIPAddress: the NLRI may be serialised concurrently for several peers.
+		gw := er.GWIPAddress
+		if !gw.IsValid() {
 			// draft-ietf-bess-evpn-prefix-advertisement: IP Prefix Advertisement in EVPN
 			// The GW IP field SHOULD be zero if it is not used as an Overlay Index.
-			er.GWIPAddress = netip.IPv4Unspecified()
+			gw = netip.IPv4Unspecified()
 		}
-		buf = append(buf, er.GWIPAddress.AsSlice()...)
+		buf = append(buf, gw.AsSlice()...)
 	} else {
 		buf = append(buf, er.IPPrefix.AsSlice()...)
-		if !er.GWIPAddress.IsValid() {
-			er.GWIPAddress, _ = netip.AddrFromSlice(net.IPv6zero)
+		gw := er.GWIPAddress
+		if !gw.IsValid() {
+			gw, _ = netip.AddrFromSlice(net.IPv6zero)
 		}
-		buf = append(buf, er.GWIPAddress.AsSlice()...)
+		buf = append(buf, gw.AsSlice()...)
 	}
 
 	tbuf, err = labelSerialize(er.Label)
@@ -8852,8 +8855,10 @@ func (l *LsTLVFlexAlgoDef) Serialize() ([]byte, error) {
 	for _, raw := range l.Unknown {
 		appendSub(raw.Type, raw.Value)
 	}
-	l.Length = uint16(len(body))
-	return l.LsTLV.Serialize(body)
+	// Do not update l.Length: the TLV may be serialised concurrently for several peers.
+	tlv := l.LsTLV
+	tlv.Length = uint16(len(body))
+	return tlv.Serialize(body)
 }
 
 func (l *LsTLVFlexAlgoDef) String() string {
@@ -8982,8 +8987,10 @@ func (l *LsTLVFADPrefixMetric) Serialize() ([]byte, error) {
 	buf[1] = l.Flags
 	// bytes 2..3 are Reserved (RFC9351 Section 4) and stay zero.
 	binary.BigEndian.PutUint32(buf[4:8], l.Metric)
-	l.Length = 8
-	return l.LsTLV.Serialize(buf)
+	// Do not update l.Length: the TLV may be serialised concurrently for several peers.
+	tlv := l.LsTLV
+	tlv.Length = 8
+	return tlv.Serialize(buf)
 }
 
 func (l *LsTLVFADPrefixMetric) String() string {
